@@ -274,6 +274,23 @@ fn capsset(text: String) -> String {
 }
 
 /// `meta H`: the same text through every string setter of the builder, then build
+/// several files in one package: the directory / base-name bookkeeping of `build()` over a whole layout
+fn layout(dests: Vec<String>) -> String {
+    match guarded(AssertUnwindSafe(move || -> Result<(), Error> {
+        let mut b = builder().compression(CompressionType::None);
+        for d in &dests {
+            b = b.with_file(source_file(), FileOptions::new(d.clone()))?;
+        }
+        let pkg = b.build()?;
+        let _ = roundtrip(&pkg);
+        Ok(())
+    })) {
+        Ok(Ok(())) => "ok".into(),
+        Ok(Err(e)) => err_class(&e).into(),
+        Err(_) => "panic".into(),
+    }
+}
+
 fn meta(s: String) -> String {
     let r = guarded(AssertUnwindSafe(|| -> Result<(), Error> {
         let pkg = PackageBuilder::new(&s, &s, &s, &s, &s)
@@ -326,6 +343,10 @@ pub fn eval(op: &str, a: &[&str]) -> Option<String> {
         "tsset" if a.len() == 4 => tsset(a[0], a[1], a[2].parse().ok()?, a[3].parse().ok()?),
         "capsset" if a.len() == 1 => Some(capsset(text(a[0])?)),
         "meta" if a.len() == 1 => Some(meta(text(a[0])?)),
+        "layout" if a.len() == 1 => {
+            let dests: Option<Vec<String>> = a[0].split(',').map(|h| text(h)).collect();
+            Some(layout(dests?))
+        }
         _ => None,
     }
 }
@@ -375,6 +396,23 @@ fn gen_nobz(ctx: &mut Ctx) {
 pub fn gen(ctx: &mut Ctx) {
     if ctx.variant == "nobz" {
         return gen_nobz(ctx);
+    }
+    if ctx.shard.0 == 0 {
+        // layouts: every non-empty subset (as a sequence, two orders) of a small tree in which files sit beside
+        // sub-directories that sort before / after them, plus duplicates and odd spellings
+        let tree = ["/a/z", "/a/m/x", "/a/m/n/y", "/a/b", "/a/zz/q", "/b", "/a/m.txt", "/a/m/x/deep", "./a/k", "//a//m//w"];
+        for mask in 1u32..(1 << tree.len()) {
+            if mask.count_ones() > 4 { continue; }
+            let picked: Vec<&str> = (0..tree.len()).filter(|i| mask & (1 << i) != 0).map(|i| tree[i]).collect();
+            let fwd: Vec<String> = picked.iter().map(|d| hx(d.as_bytes())).collect();
+            ctx.req(&format!("layout {}", fwd.join(",")));
+            if picked.len() > 1 {
+                let rev: Vec<String> = picked.iter().rev().map(|d| hx(d.as_bytes())).collect();
+                ctx.req(&format!("layout {}", rev.join(",")));
+            }
+        }
+        ctx.req(&format!("layout {},{}", hx(b"/a/z"), hx(b"/a/z")));
+        ctx.req(&format!("layout {},{},{}", hx(b"/etc/demo/hugo/aa.toml"), hx(b"/etc/demo/zazz.toml"), hx(b"/etc/demo/a")));
     }
     let (si, sn) = ctx.shard;
     let mut idx: u64 = 0;
